@@ -6,6 +6,7 @@ def text_edit(old, new):
         return src.replace(old, new, 1) if old in src else None
     return edit
 MUTANTS = [
+    Mutant('unjoin_counts_request', 'src/pharmpy/model/random_variables.py', text_edit("if len(dist) - len(remove) == 1:", "if len(dist) - len(inds) == 1:"), 'V6', 'whole request counted'),
     Mutant('unjoin_first_hoisted', 'src/pharmpy/model/random_variables.py', text_edit("        for dist in self._dists:\n            first = True\n            keep = None", "        first = True\n        for dist in self._dists:\n            keep = None"), 'V5', 'flag spans all distributions'),
     Mutant('unjoin_ascending', 'src/pharmpy/model/random_variables.py', text_edit("for i in reversed(remove):", "for i in remove:"), 'V2', 'ascending index deletion'),
     Mutant('replace_skips_canonicalize', 'src/pharmpy/model/model.py', text_edit("        parameters = Model._canonicalize_parameter_estimates(parameters, random_variables)\n\n        if 'dataset' in kwargs:", "        if 'parameters' in kwargs or False:\n            parameters = Model._canonicalize_parameter_estimates(parameters, random_variables)\n\n        if 'dataset' in kwargs:"), 'V3', 'estimates only checked when parameters are given'),
